@@ -337,8 +337,6 @@ def main(run):
         "checked by the tie, not proved)",
         "tools/gen_link.py py_listing: Python reference of the listing used by the implementation-only oracle"]
     run.assumptions = [
-        "attribute values that start with a double quote have at least 2 bytes (lf_val_ok); a lone "
-        "quote makes the code compute length 1-2 in size_t (application-supplied, not generated)",
         "0 <= buflen <= COAP_PRINT_STATUS_MAX (0x0FFFFFFF)",
         "a resource registered under .well-known/core itself is the application's replacement for the "
         "listing and is not listed; a filter without '=' selects nothing, one with an empty name all",
